@@ -342,6 +342,7 @@ func Set(index uint32, ids ...int) *common.GuardianSet {
 type Msg struct {
 	Seq     uint64
 	TSOff   int64 // seconds added to T0
+	TSMs    int   // milliseconds added on top (block times of the Alephium watcher have millisecond precision); the VAA carries whole seconds, truncated
 	Payload []byte
 	Emitter vaa.Address
 	Chain   vaa.ChainID
@@ -351,7 +352,7 @@ type Msg struct {
 }
 
 func (m Msg) Pub() *common.MessagePublication {
-	mp := &common.MessagePublication{Timestamp: T0.Add(time.Duration(m.TSOff) * time.Second), Nonce: m.Nonce, Sequence: m.Seq, ConsistencyLevel: m.CL,
+	mp := &common.MessagePublication{Timestamp: T0.Add(time.Duration(m.TSOff)*time.Second + time.Duration(m.TSMs)*time.Millisecond), Nonce: m.Nonce, Sequence: m.Seq, ConsistencyLevel: m.CL,
 		EmitterChain: m.Chain, TargetChain: m.Target, EmitterAddress: m.Emitter, Payload: m.Payload}
 	mp.TxHash[0] = byte(m.Seq)
 	mp.TxHash[31] = 0x77
@@ -365,4 +366,6 @@ func (m Msg) VAA(idx uint32) *vaa.VAA {
 		EmitterChain: p.EmitterChain, TargetChain: p.TargetChain, EmitterAddress: p.EmitterAddress, Payload: p.Payload}
 }
 
-func (m Msg) String() string { return fmt.Sprintf("msg(seq=%d,ts+%d,payload=%dB)", m.Seq, m.TSOff, len(m.Payload)) }
+func (m Msg) String() string {
+	return fmt.Sprintf("msg(seq=%d,ts+%d.%03ds,payload=%dB)", m.Seq, m.TSOff, m.TSMs, len(m.Payload))
+}
